@@ -28,31 +28,40 @@ array: `np.ndim > 0`) -/
 inductive Nums
   | scalar (x : Int)
   | seq (l : List Int)
+  | fractional (isSeq : Bool) (n : Nat)   -- a number (or a sequence of n numbers) with a fractional part somewhere: 1.5, [1.5, 2.9]
   deriving DecidableEq, Repr
 
 def Nums.nAxes : Nums → Int
   | .scalar _ => 0
   | .seq _ => 1
+  | .fractional isSeq _ => if isSeq then 1 else 0
 
 /-- `len(x)` (only evaluated for sequences) -/
 def Nums.len : Nums → Int
   | .scalar _ => 1
   | .seq l => l.length
+  | .fractional _ n => n
+
+/-- `np.any(np.mod(np.asarray(x, dtype=float), 1) != 0)` -/
+def Nums.isFractional : Nums → Bool
+  | .fractional _ _ => true
+  | _ => false
 
 /-- the values as the data element holds them (`abstract` of the harness: a bare value is a one-item list) -/
 def Nums.values : Nums → List Int
   | .scalar x => [x]
   | .seq l => l
+  | .fractional _ _ => []
 
 /-- one optional numbers argument through a regenerated guard: `none` = attribute not written -/
-def numsArg (check : Bool → Int → Int → Except ErrKind Int) (a : Option Nums) : Except ErrKind (Option (List Int)) :=
+def numsArg (check : Bool → Int → Int → Bool → Except ErrKind Int) (a : Option Nums) : Except ErrKind (Option (List Int)) :=
   match a with
   | none =>
-    match check false 0 0 with
+    match check false 0 0 false with
     | .error e => .error e
     | .ok r => if r == 0 then .ok none else .error .other
   | some x =>
-    match check true x.nAxes x.len with
+    match check true x.nAxes x.len x.isFractional with
     | .error e => .error e
     | .ok r => if r == 1 then .ok (some x.values) else .error .other
 
@@ -80,19 +89,20 @@ def allPairs : List (List Int) → Option (List (Int × Int))
     | some q, some qs => some (q :: qs)
     | _, _ => none
 
-/-- `WaveformContentItem.__init__` on the argument as spelled (a sequence of sequences) -/
-def mkWaveformA (name : Coded) (cls inst : String) (channels : Option (List (List Int))) (rel : Option String) :
+/-- `WaveformContentItem.__init__` on the argument as spelled (a sequence of sequences); `frac` = one of the entries has a
+fractional part (the entries of `channels` are then their integer parts) -/
+def mkWaveformAF (name : Coded) (cls inst : String) (channels : Option (List (List Int))) (frac : Bool) (rel : Option String) :
     Except ErrKind Item :=
   match base .waveform name rel with
   | .error e => .error e
   | .ok _ =>
     match channels with
     | none =>
-      match Gen.waveformChannelsCheck false 0 false with
+      match Gen.waveformChannelsCheck false 0 false false with
       | .error e => .error e
       | .ok r => if r == 0 then mkWaveform name cls inst none rel else .error .other
     | some l =>
-      match Gen.waveformChannelsCheck true l.length (l.any (fun p => p.length != 2)) with
+      match Gen.waveformChannelsCheck true l.length (l.any (fun p => p.length != 2)) frac with
       | .error e => .error e
       | .ok r =>
         if r == 1 then
@@ -101,8 +111,12 @@ def mkWaveformA (name : Coded) (cls inst : String) (channels : Option (List (Lis
           | none => .error .other
         else .error .other
 
-/-- `TcoordContentItem.__init__` with all three optional arguments -/
-def mkTcoordA (ds : Rat → Rat) (name : Coded) (rangeType : String) (pos : Option (List Int)) (off : Option (List Rat))
+/-- whole-number channel entries -/
+def mkWaveformA (name : Coded) (cls inst : String) (channels : Option (List (List Int))) (rel : Option String) :
+    Except ErrKind Item := mkWaveformAF name cls inst channels false rel
+
+/-- `TcoordContentItem.__init__` with all three optional arguments; `posFrac` = a sample position has a fractional part -/
+def mkTcoordAF (ds : Rat → Rat) (name : Coded) (rangeType : String) (pos : Option (List Int)) (posFrac : Bool) (off : Option (List Rat))
     (dts : Option (List String)) (rel : Option String) : Except ErrKind Item :=
   match base .tcoord name rel with
   | .error e => .error e
@@ -110,7 +124,7 @@ def mkTcoordA (ds : Rat → Rat) (name : Coded) (rangeType : String) (pos : Opti
     if !(enumHas Gen.c13TemporalRangeTypes rangeType) then .error .value
     else
       let len {α} (o : Option (List α)) : Int := match o with | none => 0 | some l => l.length
-      match Gen.tcoordArgCheck pos.isSome (len pos) off.isSome (len off) dts.isSome (len dts) with
+      match Gen.tcoordArgCheck pos.isSome (len pos) off.isSome (len off) dts.isSome (len dts) posFrac with
       | .error e => .error e
       | .ok k =>
         match Gen.tcoordBranchKeywords[(k - 1).toNat]?, pos, off, dts with
@@ -118,6 +132,10 @@ def mkTcoordA (ds : Rat → Rat) (name : Coded) (rangeType : String) (pos : Opti
         | some "ReferencedTimeOffsets", _, some l, _ => mkTcoord ds name rangeType (some (.offsets l)) rel
         | some "ReferencedDateTime", _, _, some l => mkTcoord ds name rangeType (some (.datetimes l)) rel
         | _, _, _, _ => .error .other
+
+/-- whole-number sample positions -/
+def mkTcoordA (ds : Rat → Rat) (name : Coded) (rangeType : String) (pos : Option (List Int)) (off : Option (List Rat))
+    (dts : Option (List String)) (rel : Option String) : Except ErrKind Item := mkTcoordAF ds name rangeType pos false off dts rel
 
 /-- the spellings of the NUM value a caller may use -/
 inductive NumSpelling
